@@ -303,7 +303,10 @@ type C09Episode struct {
 }
 
 func genC09Plan(seed uint64, tier string) *ATPlan {
-	p := genATPlan(seed, tier, "rollback")
+	// a secondary unique index couples the branches of one global transaction
+	// (an earlier branch cannot put a value back while a later, not yet rolled
+	// back one holds it): the per-branch reference model does not cover that
+	p := genATPlanTweaked(seed, tier, "rollback", func(g *simkit.Gen, o *GenOpts) { o.UniqueIndex = false })
 	p.Cfg.DataValidation = true
 	return p
 }
